@@ -116,7 +116,7 @@ def decode_devices(ints, cfg, nmax, allow_silent=True):
     return out
 
 
-def apply_devices(w, c, victims, seed, keep_content=None):
+def apply_devices(w, c, victims, seed, keep_content=None, flippable=None):
     """apply device-level damage. keep_content: path of a content copy that must survive."""
     rnd = random.Random(seed)
     arr = w.arr
@@ -167,6 +167,8 @@ def apply_devices(w, c, victims, seed, keep_content=None):
                 elif sh == "flip_some":
                     nblk = (st.st_size + bs - 1) // bs
                     for i in range(nblk):
+                        if flippable is not None and (dev, rel, i) not in flippable:
+                            continue
                         if rnd.random() < 0.5:
                             if corrupt_file_block(w, dev, rel, i, bs, rnd, shape=rnd.choice(["bit", "byte", "block", "zero"])):
                                 ledger["data_blocks_hit"] += 1
